@@ -1003,6 +1003,12 @@ class Interp:
                             return self.getitem(c, k, node)
                     if not self.branch(z3.And(k.t >= 0, k.t < n), node):
                         raise PyRaise("IndexError", node)
+                    if any(not (is_concrete_scalar(x) or isinstance(x, Sym)) for x in items):
+                        # elements are (mutable) objects: decide the position on this path so that
+                        # object identity is preserved
+                        for j in range(n):
+                            if j == n - 1 or self.branch(k.t == j, node):
+                                return items[j]
                 return self.index_nocheck(SList(items), k.t)
             raise Unsupported("list index %r" % (k,), node)
         if isinstance(c, SymList):
